@@ -19,6 +19,13 @@ def make_files(wd):
     # a file whose header body was altered without re-sealing: the lead is fine, the header is not
     buf = bytearray(files[1][1]); h = ref.parse_header(bytes(buf)); off, n = h.fields["e1.digest"]; buf[off] ^= 0x40
     p = os.path.join(wd, "pinbad.zck"); open(p, "wb").write(buf); files.append((p, bytes(buf), False))
+    # a lead whose stored header length exceeds 32 bits (the header itself is absent): a pinned total length
+    # must be compared in full width, not modulo 2^32
+    b1 = files[1][1]; h1 = ref.parse_header(b1)
+    for big in (2**32, 2**33 + 2**32):
+        lead = b1[:5] + ref.ci_enc(h1.hash_type) + ref.ci_enc(h1.header_length + big) + h1.header_digest
+        buf = lead + b1[h1.lead_size:]
+        p = os.path.join(wd, "pinwrap%d.zck" % (big >> 32)); open(p, "wb").write(buf); files.append((p, buf, False))
     return files
 
 
@@ -80,7 +87,10 @@ def concretise(hist, path, buf, sealed, rnd, expand):
                     newv.append(v + [{"op": "setdigest", "str": s}])
             variants = newv
         elif op == "setlen":
-            ls = [flen] if step["l"] == "file" else ([flen + 1, flen - 1, 0, flen + 1000] if expand else [rnd.choice([flen + 1, flen - 1])])
+            others = [flen + 1, flen - 1, 0, flen + 1000]
+            if flen >= 2**32:
+                others = [flen % 2**32, flen - 2**32, flen % 2**31, flen + 1]
+            ls = [flen] if step["l"] == "file" else (others if expand else [rnd.choice(others[:2])])
             variants = [v + [{"op": "setlen", "len": x}] for v in variants for x in ls]
         else:
             for v in variants:
